@@ -87,6 +87,18 @@ func init() {
 	})
 	mi("Add", func(p *preCall) Val { return Val{S: "Int", T: "(+ " + p.args[0].T + " " + p.args[1].T + ")", Typ: p.args[0].Typ} })
 	mi("Sub", func(p *preCall) Val { return Val{S: "Int", T: "(- " + p.args[0].T + " " + p.args[1].T + ")", Typ: p.args[0].Typ} })
+	mi("Mul", func(p *preCall) Val { return Val{S: "Int", T: "(* " + p.args[0].T + " " + p.args[1].T + ")", Typ: p.args[0].Typ} })
+	mi("Quo", func(p *preCall) Val {
+		// big.Int.Quo: truncated division (rounds toward zero); panics on a zero divisor
+		fc := p.fc()
+		a, b := p.args[0].T, p.args[1].T
+		if p.cc != nil {
+			fc.safety(p.reach, eq(b, "0"), "int-div-zero", p.cc)
+		}
+		abs := func(x string) string { return "(ite (>= " + x + " 0) " + x + " (- " + x + "))" }
+		q := "(div " + abs(a) + " " + abs(b) + ")"
+		return Val{S: "Int", T: fc.def("quo", "Int", ite(eq("(>= "+a+" 0)", "(>= "+b+" 0)"), q, "(- "+q+")")), Typ: p.args[0].Typ}
+	})
 	mi("Neg", func(p *preCall) Val { return Val{S: "Int", T: "(- " + p.args[0].T + ")", Typ: p.args[0].Typ} })
 	mi("Equal", func(p *preCall) Val { return boolVal(eq(p.args[0].T, p.args[1].T)) })
 	mi("LT", func(p *preCall) Val { return boolVal("(< " + p.args[0].T + " " + p.args[1].T + ")") })
